@@ -41,6 +41,7 @@ func c07Scenarios(thorough bool) []c07Scenario {
 		{Name: "two-validators-leave", Block: ev(enga.Event{Kind: "req:unlock-big", N: 0}, enga.Event{Kind: "req:create", N: 3}), Setup: []enga.ABlock{ev(enga.Event{Kind: "req:create", N: 3})}},
 		{Name: "relayer-txs", Setup: busy[:1], Block: ev(enga.Event{Kind: "tx:deposits", N: 9}, enga.Event{Kind: "tx:process", N: 2}, enga.Event{Kind: "req:claim", N: 2})},
 		{Name: "deposit-batch-with-bad-headers", Setup: []enga.ABlock{ev(enga.Event{Kind: "tx:hashes", N: 2})}, Block: ev(enga.Event{Kind: "tx:deposits-bad-headers"}, enga.Event{Kind: "tx:deposits", N: 2})},
+		{Name: "deposits-after-deposits", Setup: []enga.ABlock{ev(enga.Event{Kind: "tx:hashes", N: 2}), ev(enga.Event{Kind: "tx:deposits", N: 1}, enga.Event{Kind: "tx:newpubkey", Var: "existing"})}, Block: ev(enga.Event{Kind: "tx:deposits", N: 2}, enga.Event{Kind: "tx:newpubkey"})},
 		{Name: "failing-relayer-tx", Block: ev(enga.Event{Kind: "tx:newpubkey", Var: "existing"}, enga.Event{Kind: "tx:hashes", N: 1, Var: "gap"})},
 		{Name: "downtime+evidence", Block: enga.ABlock{Absent: []int{1}, Evidence: []int{1}}, Setup: []enga.ABlock{{Absent: []int{1}}}},
 	}
@@ -316,6 +317,17 @@ func c07Jobs(sites []c07Site, depDeviations int) []c07Job {
 			jobs = append(jobs, c07Job{Choice: map[int]uint64{i: uint64(v)}, Site: s.Func})
 		}
 	}
+	if depDeviations >= 2 {
+		// deviation bound 2: every pair of sites, each moved to its next start
+		for i := range sites {
+			for j := i + 1; j < len(sites); j++ {
+				if alternatives(sites[i]) < 2 || alternatives(sites[j]) < 2 {
+					continue
+				}
+				jobs = append(jobs, c07Job{Choice: map[int]uint64{i: 1, j: 1}, Site: sites[i].Func + "+" + sites[j].Func})
+			}
+		}
+	}
 	return jobs
 }
 
@@ -344,7 +356,11 @@ func C07Worker(scName string, idx, n int, thorough bool) {
 	w, blk, txs := c07Prepare(sc)
 	defer w.Close()
 	base, sites := c07MapRun(w, blk, txs, nil)
-	jobs := c07Jobs(sites, 1)
+	dev := 1
+	if thorough {
+		dev = 2
+	}
+	jobs := c07Jobs(sites, dev)
 	enc := json.NewEncoder(os.Stdout)
 	repo := 0
 	for _, s := range sites {
@@ -365,8 +381,8 @@ func C07Worker(scName string, idx, n int, thorough bool) {
 }
 
 func runC07(r *mc.Run) {
-	r.Rule = "for each scenario block (adversarial lock batches naming unknown validators/tokens, several validators leaving at once, relayer transactions that succeed and fail, downtime+evidence, hand-over, election) the same transactions are executed on: a base replica; a replica on which the proposal is processed in two rounds before it is finalised; a replica restarted (new App on the same DB) between FinalizeBlock and Commit; one restarted after Commit; replicas with the wall clock shifted by +-400 days; and, for every map iteration of the FinalizeBlock goroutine, every combination of starts at range sites inside goat packages and every single deviation at sites in dependencies (runtime hook, instrumented build); oracle = equal app hash, tx codes/codespaces/gas/data, validator-update set, engine call log, store dump and next-block app hash"
-	r.Assumptions = []string{"torn writes inside the SDK's Commit are out of scope", "map deviations beyond one per execution are not explored in dependencies"}
+	r.Rule = "for each scenario block (adversarial lock batches naming unknown validators/tokens, several validators leaving at once, relayer transactions that succeed and fail, downtime+evidence, hand-over, election) the same transactions are executed on: a base replica; a replica on which the proposal is processed in two rounds before it is finalised; a replica restarted (new App on the same DB) between FinalizeBlock and Commit; one restarted after Commit; the long-running process that executed the whole setup history itself; replicas with the wall clock shifted by +-400 days; and, for every map iteration of the FinalizeBlock goroutine, every combination of starts at range sites inside goat packages and every single deviation at sites in dependencies (runtime hook, instrumented build); oracle = equal app hash, tx codes/codespaces/gas/data, validator-update set, engine call log, store dump and next-block app hash"
+	r.Assumptions = []string{"torn writes inside the SDK's Commit are out of scope", "in dependencies one map deviation per execution is explored (thorough: also every pair of sites moved to their next start)"}
 	scs := c07Scenarios(r.Thorough())
 	self, err := os.Executable()
 	must(err)
@@ -408,6 +424,20 @@ func runC07(r *mc.Run) {
 			if d := base.diff(o); d != "" {
 				r.Violate(mc.Violation{Class: "replica-diverges:" + mode, Msg: fmt.Sprintf("scenario %s: %s", sc.Name, d), Detail: map[string]any{"scenario": sc, "mode": mode}}, nil)
 			}
+		}
+		// a long-running process: the node that executed the whole setup history itself (with
+		// whatever process-local state that left behind) against the freshly constructed replicas
+		{
+			lw, lblk, ltxs := c07Prepare(sc)
+			lw.N.EL.ClearRequests() // the simulated EL emitted the setup's requests once; World.Run only clears them on its next call
+			r.Transitions.Add(1)
+			r.Validated.Add(1)
+			if fmt.Sprintf("%x", ltxs) != fmt.Sprintf("%x", txs) {
+				r.Cap("scenario " + sc.Name + ": block not reproducible for the long-running replica")
+			} else if d := base.diff(c07Exec(lw, lblk, ltxs, "plain")); d != "" {
+				r.Violate(mc.Violation{Class: "replica-diverges:long-running-process-vs-restarted", Msg: fmt.Sprintf("scenario %s: %s", sc.Name, d), Detail: map[string]any{"scenario": sc, "mode": "long-running"}}, nil)
+			}
+			lw.Close()
 		}
 		mu.Lock()
 		r.Sample(map[string]any{"scenario": sc.Name, "block": sc.Block.String(), "tx_results": base.Txs})
